@@ -203,6 +203,7 @@ type runner interface {
 	Ctrl() *cc.ConnectController
 	Statuses() []string
 	Windows() (in, out int)
+	StartedOver() []string // per attempt: "" or the clause (count already >= limit when its check ran)
 	Live() []liveConn
 	Fatal() bool
 	Shutdown()
@@ -252,6 +253,44 @@ type threadB struct {
 	pc     int
 	defers []string
 	out    string
+	over   string
+}
+
+// countDir / countHost: the recorded entries, counted from a snapshot (not through the
+// controller's own counting functions).
+func countDir(st cc.VerifState, dir string) uint {
+	if dir == "in" {
+		return uint(len(st.Inbounds))
+	}
+	return uint(len(st.Outbounds))
+}
+
+func countHost(st cc.VerifState, host string) uint {
+	n := uint(0)
+	for _, a := range st.Inbounds {
+		if h, _, err := net.SplitHostPort(a); err == nil && h == host {
+			n++
+		}
+	}
+	return n
+}
+
+// overClause: which limit is already reached for an attempt (dir, host) in this state.
+func overClause(cfg Cfg, st cc.VerifState, dir string, host string, perIP bool) string {
+	limit := cfg.MaxOut
+	if dir == "in" {
+		limit = cfg.MaxIn
+	}
+	if !perIP {
+		if countDir(st, dir) >= limit {
+			return dir + "bound-total"
+		}
+		return ""
+	}
+	if dir == "in" && countHost(st, host) >= cfg.MaxPerIP {
+		return "inbound-per-ip"
+	}
+	return ""
 }
 
 type runnerB struct {
@@ -340,10 +379,16 @@ func (r *runnerB) execB(t *threadB, op string) string {
 			return "ESelfAddr"
 		}
 	case "OpFull":
+		if cl := overClause(r.cfg, r.ctrl.VerifSnapshot(), t.ev.Dir, ipStr(t.ev.IP), false); cl != "" && t.over == "" {
+			t.over = cl
+		}
 		if r.ctrl.VerifIsBoundFull(idx) {
 			return "EBoundFull"
 		}
 	case "OpIpCount":
+		if cl := overClause(r.cfg, r.ctrl.VerifSnapshot(), t.ev.Dir, ipStr(t.ev.IP), true); cl != "" && t.over == "" {
+			t.over = cl
+		}
 		if cmpGo(r.prog.CmpIP, r.ctrl.VerifInboundCountWithIp(ipStr(t.ev.IP)), r.cfg.MaxPerIP) {
 			return "EIpFull"
 		}
@@ -427,6 +472,14 @@ func (r *runnerB) Statuses() []string {
 	return s
 }
 
+func (r *runnerB) StartedOver() []string {
+	var s []string
+	for _, t := range r.threads {
+		s = append(s, t.over)
+	}
+	return s
+}
+
 func isCheckOp(op string) bool { return op == "OpHasBound" || op == "OpFull" || op == "OpIpCount" }
 
 func (r *runnerB) Windows() (in, out int) {
@@ -476,6 +529,7 @@ type threadA struct {
 	remote  net.Conn // the driver's end of the pipe
 	local   net.Conn
 	hsDone  chan struct{}
+	over    string
 }
 
 // gatedConn is the controller's end of the pipe: RemoteAddr is the scheduled address, and the two
@@ -601,6 +655,13 @@ func (r *runnerA) Step(tid int) error {
 	case "":
 		return nil
 	case "g0":
+		// all of beforeHandshakeCheck runs in this release and nothing else runs meanwhile: the
+		// counts its checks will read are the ones recorded now
+		st := r.ctrl.VerifSnapshot()
+		th.over = overClause(r.cfg, st, th.ev.Dir, ipStr(th.ev.IP), false)
+		if th.over == "" {
+			th.over = overClause(r.cfg, st, th.ev.Dir, ipStr(th.ev.IP), true)
+		}
 		r.dialMu.Lock()
 		r.dialCur = th
 		r.dialMu.Unlock()
@@ -656,6 +717,14 @@ func (r *runnerA) Statuses() []string {
 	var s []string
 	for _, t := range r.threads {
 		s = append(s, t.out)
+	}
+	return s
+}
+
+func (r *runnerA) StartedOver() []string {
+	var s []string
+	for _, t := range r.threads {
+		s = append(s, t.over)
 	}
 	return s
 }
@@ -812,6 +881,7 @@ func (c Cfg) coq() string {
 }
 
 const findingClass = "toctou:limit-check-then-savePeer"
+const overClass = "limit:attempt-started-at-or-over-limit-recorded"
 
 type verdict struct {
 	class, clause string
@@ -903,6 +973,7 @@ func runSched(c *hx.Ctx, prog *Prog, s Sched, next nextFn) {
 	var steps []string
 	maxWinIn, maxWinOut := 0, 0
 	failed := false
+	failedOver := false
 	saves := 0
 	prevCtrl, prevThr := "", ""
 	for i := 0; ; i++ {
@@ -952,6 +1023,21 @@ func runSched(c *hx.Ctx, prog *Prog, s Sched, next nextFn) {
 				failed = true
 				c.Fail(v.class, v.clause, s, v.got, v.want)
 				c.Count("oracle:" + v.class)
+			}
+		}
+		// separate clause, never in the known-finding class: an attempt whose limit check ran when
+		// the recorded count was already at or over the limit must not end up recorded
+		// (Coq: c36_started_at_limit_never_recorded)
+		if !failedOver {
+			over := r.StartedOver()
+			for ti, st := range o.status {
+				if st == outDone && ti < len(over) && over[ti] != "" {
+					failedOver = true
+					c.Fail(overClass, over[ti], s, fmt.Sprintf("attempt %d succeeded", ti),
+						"refused: the recorded count was already >= the limit when its check ran")
+					c.Count("oracle:" + overClass)
+					break
+				}
 			}
 		}
 	}
@@ -1154,6 +1240,124 @@ func genNext(c *hx.Ctx, level string, mode int) nextFn {
 	}
 }
 
+// genOvershoot: histories that first push a recorded count over its limit through overlapping
+// attempts (the known finding) and then issue further SEQUENTIAL attempts, which must all be
+// refused. variant 0: inbound total, 1: outbound total, 2: inbound per IP (one host).
+func genOvershoot(c *hx.Ctx, level string, prog *Prog) (Cfg, nextFn) {
+	variant := c.Rng.Intn(3)
+	L := uint(1 + c.Rng.Intn(3))
+	cfg := Cfg{MaxIn: 20, MaxOut: 20, MaxPerIP: 20, SelfID: 99}
+	dir := "in"
+	switch variant {
+	case 0:
+		cfg.MaxIn = L
+	case 1:
+		cfg.MaxOut = L
+		dir = "out"
+	case 2:
+		cfg.MaxPerIP = L
+	}
+	host := hostPool[c.Rng.Intn(len(hostPool))]
+	n := 0
+	mk := func(d string) Event {
+		n++
+		h := host
+		if variant != 2 && c.Rng.Intn(2) == 0 {
+			h = hostPool[c.Rng.Intn(len(hostPool))]
+		}
+		e := spawnEv(d, h, 5000+n, uint64(20+n), uint16(20338+c.Rng.Intn(2)))
+		if d == "out" {
+			e.Port = 20400 + n
+		}
+		return e
+	}
+	stepKind := "run"
+	checkSteps := 1
+	if level == "A" {
+		stepKind = "adv"
+	} else {
+		// sections up to and including the limit checks
+		items := prog.Accept
+		if dir == "out" {
+			items = prog.Connect
+		}
+		checkSteps = 0
+		for i, it := range items {
+			if !it.Defer && isCheckOp(it.Op) {
+				checkSteps = i + 1
+			}
+		}
+	}
+	type macro struct {
+		kind string // spawn | steps | finish | close
+		ev   Event
+		tid  int
+		n    int
+	}
+	var script []macro
+	tid := 0
+	seq := func(d string) {
+		script = append(script, macro{kind: "spawn", ev: mk(d)}, macro{kind: "finish", tid: tid})
+		tid++
+	}
+	for i := uint(1); i < L; i++ {
+		seq(dir)
+	}
+	m := 2 + c.Rng.Intn(2)
+	first := tid
+	for i := 0; i < m; i++ {
+		script = append(script, macro{kind: "spawn", ev: mk(dir)}, macro{kind: "steps", tid: tid, n: checkSteps})
+		tid++
+	}
+	for i := 0; i < m; i++ {
+		script = append(script, macro{kind: "finish", tid: first + i})
+	}
+	k := 3 + c.Rng.Intn(4)
+	for i := 0; i < k; i++ {
+		if c.Rng.Intn(8) == 0 {
+			script = append(script, macro{kind: "close", n: c.Rng.Intn(int(L) + m)})
+		}
+		d := dir
+		if variant != 2 && c.Rng.Intn(6) == 0 {
+			d = map[string]string{"in": "out", "out": "in"}[dir]
+		}
+		seq(d)
+	}
+	pos, done, tail := 0, 0, false
+	return cfg, func(r runner, i int) (Event, bool) {
+		for pos < len(script) && i < 400 {
+			mc := script[pos]
+			switch mc.kind {
+			case "spawn":
+				pos++
+				return mc.ev, true
+			case "close":
+				pos++
+				return Event{Kind: "close", Idx: mc.n}, true
+			case "steps":
+				if done < mc.n {
+					done++
+					return Event{Kind: stepKind, Idx: mc.tid}, true
+				}
+				done = 0
+				pos++
+			case "finish":
+				st := r.Statuses()
+				if mc.tid < len(st) && st[mc.tid] == outPending {
+					return Event{Kind: stepKind, Idx: mc.tid}, true
+				}
+				if level == "B" && !tail {
+					tail = true // the deferred removeConnecting, if any
+					return Event{Kind: stepKind, Idx: mc.tid}, true
+				}
+				tail = false
+				pos++
+			}
+		}
+		return Event{}, false
+	}
+}
+
 func Run(c *hx.Ctx) {
 	c.CoqModule("Corr.C36")
 	prog, errs := ExtractProgram(c.Repo)
@@ -1161,8 +1365,8 @@ func Run(c *hx.Ctx) {
 	if len(errs) > 0 || prog == nil {
 		// the tie is broken (Gen/ConnCtrlProg.v has no program, the proofs do not compile); the
 		// real AcceptConnect/Connect can still be driven, so keep looking for a failing input
-		c.Note("translator: " + strings.Join(errs, "; "))
-		c.Fail("translator:connect_controller", "the section sequence of AcceptConnect/Connect has the expected shape", nil, strings.Join(errs, "; "), nil)
+		// (the framework reports the broken tie itself; this is not an oracle failure)
+		c.Note("translator: " + strings.Join(errs, "; ") + " -- level B skipped, level A and the oracle still run")
 		levelB = false
 		if prog == nil {
 			prog = &Prog{}
@@ -1204,6 +1408,15 @@ func Run(c *hx.Ctx) {
 			}
 			c.Count(fmt.Sprintf("mode:%s:%d", lv.level, mode))
 			runSched(c, prog, Sched{Level: lv.level, Cfg: cfg}, genNext(c, lv.level, mode))
+		}
+	}
+	// 3. overshoot (overlapping attempts) followed by sequential attempts at an over-limit count
+	nO := c.N(40, 250)
+	for _, level := range []string{"A", "B"} {
+		for i := 0; i < nO && (level == "A" || levelB); i++ {
+			cfg, next := genOvershoot(c, level, prog)
+			c.Count("mode:" + level + ":overshoot")
+			runSched(c, prog, Sched{Level: level, Name: "overshoot then sequential", Cfg: cfg}, next)
 		}
 	}
 }
